@@ -1026,7 +1026,13 @@ impl Iterator for ExpandIncludeFile<'_> {
                 debug!("failed to read @-file `{}`: {}", file.display(), e);
                 return Some(arg);
             }
-            if contents.contains('"') || contents.contains('\'') {
+            // gcc also treats a backslash as an escape character and ends the
+            // file's text at a NUL byte; neither is implemented here.
+            if contents.contains('"')
+                || contents.contains('\'')
+                || contents.contains('\\')
+                || contents.contains('\0')
+            {
                 return Some(arg);
             }
             let new_args = contents.split_whitespace().collect::<Vec<_>>();
